@@ -90,3 +90,8 @@ pub open spec fn decimal_u32(b: Seq<u8>) -> Option<u32> {
 pub proof fn axiom_utf8_spec_bytes(s: &str)
     ensures s.spec_bytes() == utf8(s@)
 {}
+
+/// population count (only its range is stated; the value is an uninterpreted function of the argument)
+pub uninterp spec fn popcount32(x: u32) -> u32;
+pub assume_specification[ u32::count_ones ](x: u32) -> (r: u32)
+    ensures r == popcount32(x), r <= 32;
